@@ -10,8 +10,7 @@ import (
 	"strings"
 )
 
-const prelude = `(set-option :smt.mbqi true)
-(declare-sort Str 0)
+const prelude = `(declare-sort Str 0)
 (declare-datatypes ((Iface 0)) (((mk_iface (itag Int) (ival Int)))))
 (declare-datatypes ((Slice 0)) (((mk_slice (s_arr Int) (s_off Int) (s_len Int) (s_cap Int)))))
 (declare-fun str_len (Str) Int)
@@ -195,6 +194,7 @@ func heapStable(name string) bool {
 
 type sortCtx struct {
 	u        *Universe
+	typeDecls []string // datatype declarations (always emitted first; survive reset)
 	decls    []string
 	declared map[string]bool
 	structs  map[string]string // structKey -> datatype name
@@ -269,7 +269,7 @@ func (c *sortCtx) structSort(t types.Type, s *types.Struct) string {
 	if len(fs) == 0 {
 		fs = append(fs, fmt.Sprintf("(%s.dummy Int)", name))
 	}
-	c.declare(name, fmt.Sprintf("(declare-datatypes ((%s 0)) (((mk.%s %s))))", name, name, strings.Join(fs, " ")))
+	c.typeDecls = append(c.typeDecls, fmt.Sprintf("(declare-datatypes ((%s 0)) (((mk.%s %s))))", name, name, strings.Join(fs, " ")))
 	return name
 }
 
@@ -291,9 +291,9 @@ func (c *sortCtx) zero(t types.Type) Term {
 		}
 		return "0"
 	case *types.Interface:
-		return "iface_nil"
+		return "(mk_iface 0 0)"
 	case *types.Slice:
-		return "slice_nil"
+		return "(mk_slice 0 0 0 0)"
 	case *types.Struct:
 		dt := c.structSort(t, u)
 		var zs []string
